@@ -122,6 +122,12 @@ func (l *Lock) Unlock(key string) (bool, error) {
 	default:
 	}
 
+	// The key is removed and the lock released in one step. Otherwise a second Unlock() with the
+	// same key could report that the key is invalid (already unlocked) while the lock is still
+	// unavailable.
+	l.keyMtx.Lock()
+	defer l.keyMtx.Unlock()
+
 	var err error
 	removed := l.removeKey(key)
 	if !removed {
@@ -141,11 +147,8 @@ func (l *Lock) addKey(key string) {
 }
 
 // removeKey removes a key from the lock's keys. It returns false if the key
-// does not exist.
+// does not exist. The caller must hold keyMtx.
 func (l *Lock) removeKey(key string) bool {
-	l.keyMtx.Lock()
-	defer l.keyMtx.Unlock()
-
 	at := slices.Index(l.keys, key)
 	if at < 0 {
 		return false
